@@ -260,6 +260,7 @@ type Case struct {
 	Nondets []interp.Nondet `json:"nondets"`
 	Tier    int             `json:"tier"`
 	Repeat  int             `json:"repeat"`
+	Lenient bool            `json:"lenient"`
 }
 
 type NativeResult struct {
@@ -645,6 +646,7 @@ func cmdRun(args []string) int {
 			label string
 			v     *interp.Violation
 			w     *interp.Witness
+			probe *interp.Witness
 		}
 		var refs []ref
 		for _, lb := range labels {
@@ -659,6 +661,11 @@ func cmdRun(args []string) int {
 			cases = append(cases, Case{Harness: h.Fn, Nondets: w.Nondets, Tier: tierN})
 			refs = append(refs, ref{w: w})
 		}
+		for i := range st.Probes {
+			w := &st.Probes[i]
+			cases = append(cases, Case{Harness: h.Fn, Nondets: w.Nondets, Tier: tierN, Lenient: true, Repeat: 3})
+			refs = append(refs, ref{probe: w})
+		}
 		reproduced := map[string]*interp.Violation{}
 		reproDetail := map[string]string{}
 		if len(cases) > 0 && !*noNative {
@@ -669,6 +676,31 @@ func cmdRun(args []string) int {
 			} else {
 				for i, r := range res {
 					rf := refs[i]
+					if rf.probe != nil {
+						// native probe of a path the executor could not finish
+						if r.Assumed || r.Diverged != "" {
+							continue
+						}
+						lb := ""
+						if len(r.Failures) > 0 {
+							lb = r.Failures[0]
+						} else if r.Panic != "" {
+							lb = "no-panic/native-probe"
+						}
+						if lb != "" && reproduced[lb] == nil {
+							v := interp.Violation{Harness: h.Fn, Pkg: h.Pkg, Label: lb, Kind: "assert", Nondets: rf.probe.Nondets, Decisions: rf.probe.Decisions,
+								Detail: "found by running the native harness on solver-completed inputs of a path the executor could not finish (" + rf.probe.Panic + ")"}
+							if r.Panic != "" && len(r.Failures) == 0 {
+								v.Kind = "panic"
+								reproDetail[lb] = r.Panic
+							}
+							reproduced[lb] = &v
+							labels = append(labels, lb)
+							byLabel[lb] = append(byLabel[lb], v)
+							ev.Violations++
+						}
+						continue
+					}
 					if rf.v != nil {
 						ok := false
 						if rf.v.Kind == "panic" {
